@@ -161,7 +161,30 @@ Definition no_srv_auth (obs : list sobs) : bool :=
 Definition C13_srv_nokey_ok (local_port conn_port : Z) (socks : list (bytes * Z))
     (sender : Z) (q : rx) (qrev : option (Z * bytes)) (obs : list sobs) : bool :=
   C13_srv_ok local_port conn_port false socks sender q [] qrev obs &&
-  (if for_service local_port q then no_srv_auth obs else true).
+  (if for_service local_port q then no_srv_auth obs else true) &&
+  (* the authenticator of a request cannot verify without a key: such a request is not served *)
+  (match carries_auth spi_client q with
+   | Some _ => if for_service local_port q then match obs with [] => true | _ => false end else true
+   | None => true
+   end).
+
+(* "carries a packet authenticator for the time-service DRKey (expected SPI and algorithm)"
+   whatever the length of its data: an authenticator whose data does not have the 28 bytes of
+   metadata and AES-CMAC tag cannot verify *)
+Definition claims_auth (spi : Z) (q : rx) : option opt :=
+  if rx_ok q && existsb (fun l => l =? LT_E2E) (rx_layers q) then
+    match find_opt OPT_AUTH (rx_opts q) with
+    | Some o => if (opt_spi o =? spi) && (opt_algo o =? auth_algorithm) then Some o else None
+    | None => None
+    end
+  else None.
+
+Definition C13_srv_maclen_ok (auth_enabled : bool) (local_port : Z) (q : rx) (obs : list sobs) : bool :=
+  match claims_auth spi_client q with
+  | Some o => if auth_enabled && for_service local_port q && negb (zlen (o_data o) =? auth_opt_data_len)
+              then match obs with [] => true | _ => false end else true
+  | None => true
+  end.
 
 (* ---- client ---- *)
 (* result: 0 i a = accepted response i (a: counted as authenticated), 1 = error, 2 = timeout *)
@@ -225,6 +248,19 @@ Definition srv_keyreq_ok (q : rx) (r : kreq) : bool :=
 Definition cli_keyreq_ok (lia : Z) (lh : bytes) (ria : Z) (rh : bytes) (r : kreq) : bool :=
   kq_hh r && (kq_proto r =? ts_proto) && (kq_fast_ia r =? ria) && (kq_slow_ia r =? lia) &&
   same_ip (kq_fast_host r) rh && same_ip (kq_slow_host r) lh && kq_time_ok r.
+
+(* A client with authentication enabled that could not obtain the key cannot verify an
+   authenticator: it never computes an offset from a response that carries the server's. *)
+Definition C13_cli_nokey_ok (wanted key_ok : bool) (resps : list (rx * bytes)) (accepted : option nat) : bool :=
+  if wanted && negb key_ok then
+    match accepted with
+    | Some i => match nth_error resps i with
+                | Some (q, _) => match carries_auth spi_server q with Some _ => false | None => true end
+                | None => false
+                end
+    | None => true
+    end
+  else true.
 
 (* ---- fail-closed authentication (NOT a clause of C13 as stated; the pinned
         code does not have this property, see Props/C13.v) ----
